@@ -84,7 +84,15 @@ func (g *gcmAsm) Seal(dst, nonce, plaintext, data []byte) []byte {
 	}
 
 	if len(plaintext) > 0 {
-		gcmSm4Enc(&g.bytesProductTable, out, plaintext, &counter, &tagOut, g.cipher.enc[:])
+		if r := len(plaintext) % gcmBlockSize; r != 0 && r+g.tagSize < gcmBlockSize {
+			// The assembly stores the final partial block as a whole block and counts on the room
+			// for the tag behind the ciphertext: with a short tag that room is too small.
+			tmp := make([]byte, len(plaintext)+gcmTagSize)
+			gcmSm4Enc(&g.bytesProductTable, tmp, plaintext, &counter, &tagOut, g.cipher.enc[:])
+			copy(out, tmp[:len(plaintext)])
+		} else {
+			gcmSm4Enc(&g.bytesProductTable, out, plaintext, &counter, &tagOut, g.cipher.enc[:])
+		}
 	}
 	gcmSm4Finish(&g.bytesProductTable, &tagMask, &tagOut, uint64(len(plaintext)), uint64(len(data)))
 	copy(out[len(plaintext):], tagOut[:])
@@ -137,7 +145,15 @@ func (g *gcmAsm) Open(dst, nonce, ciphertext, data []byte) ([]byte, error) {
 		panic("cipher: invalid buffer overlap")
 	}
 	if len(ciphertext) > 0 {
-		gcmSm4Dec(&g.bytesProductTable, out, ciphertext, &counter, &expectedTag, g.cipher.enc[:])
+		if r := len(ciphertext) % gcmBlockSize; r != 0 && r+g.tagSize < gcmBlockSize {
+			// The assembly loads the final partial block as a whole block and counts on the tag
+			// behind the ciphertext: with a short tag it would read past the caller's slice.
+			tmp := make([]byte, len(ciphertext)+gcmTagSize)
+			copy(tmp, ciphertext)
+			gcmSm4Dec(&g.bytesProductTable, out, tmp[:len(ciphertext)], &counter, &expectedTag, g.cipher.enc[:])
+		} else {
+			gcmSm4Dec(&g.bytesProductTable, out, ciphertext, &counter, &expectedTag, g.cipher.enc[:])
+		}
 	}
 	gcmSm4Finish(&g.bytesProductTable, &tagMask, &expectedTag, uint64(len(ciphertext)), uint64(len(data)))
 
